@@ -3,7 +3,8 @@
 // action list is empty.  Numbers are printed with "%.17g" (round-trip exact for binary64).
 //
 // Script (whitespace separated):
-//   R mode pen buf nudge trans   new router: mode 0 polyline / 1 orthogonal; segmentPenalty pen (all other penalties 0);
+//   R mode pen buf nudge trans   new router: mode 0 polyline / 1 orthogonal / 2 PolyLineRouting|OrthogonalRouting (new connectors are
+//                                poly-line there, Router::validConnType); segmentPenalty pen (all other penalties 0);
 //                                shapeBufferDistance buf; idealNudgingDistance nudge; trans 1 = setTransactionUse(true)
 //   A id k x1 y1 .. xk yk        new ShapeRef(router, poly, id)
 //   M id dx dy                   router->moveShape(shape, dx, dy)
@@ -11,6 +12,7 @@
 //   D id                         router->deleteShape(shape)
 //   C id sx sy dx dy             new ConnRef(router, ConnEnd(s), ConnEnd(d), id)
 //   E id which x y               which 0: setSourceEndpoint, 1: setDestEndpoint
+//   Y id type                    ConnRef::setRoutingType: type 1 ConnType_PolyLine, 2 ConnType_Orthogonal (dual-mode routers; DESIGN 9.20)
 //   O name v                     setRoutingOption: name in nudgeConnected | improveMoving | improveAddDel | unifying | touchingColinear
 //   F name v                     public Router member flag (router.h:411-424): name in InvisibilityGrph | UseLeesAlgorithm | RubberBandRouting |
 //                                IgnoreRegions | SelectiveReroute, v 0/1; given right after R, before any shape or connector exists
@@ -25,6 +27,7 @@
 //   K cid sx sy dx dy            connector attachment points (src()->point, dst()->point)
 //   D cid n x y ..               displayRoute()
 //   O cid n x y ..               route()
+//   Y cid type                   routingType() of every connector (mode 2 runs only)
 //   .
 // A run that created a junction dumps every connector of Router::connRefs (hyperedge improvement may add / delete
 // connectors and junctions) and adds
@@ -66,6 +69,8 @@ static Polygon readPoly(std::istream& in)
     return p;
 }
 
+static bool dualMode = false;
+
 static void dump(Router *router, std::map<int, ConnRef *>& cn, bool ret)
 {
     printf("P %d %d\n", ret ? 1 : 0, router->actionList.empty() ? 1 : 0);
@@ -84,6 +89,7 @@ static void dump(Router *router, std::map<int, ConnRef *>& cn, bool ret)
                    c->dst()->point.x, c->dst()->point.y);
         printPoly("D", kv->first, c->displayRoute());
         printPoly("O", kv->first, c->route());
+        if (dualMode) printf("Y %d %d\n", kv->first, (int) c->routingType());
     }
     printf(".\n");
 }
@@ -141,7 +147,8 @@ int main()
         if (tag != "R") continue;
         int mode, trans; double pen, buf, nudge;
         std::cin >> mode >> pen >> buf >> nudge >> trans;
-        Router *router = new Router(mode == 0 ? PolyLineRouting : OrthogonalRouting);
+        dualMode = (mode == 2);
+        Router *router = new Router(mode == 0 ? PolyLineRouting : mode == 1 ? OrthogonalRouting : (PolyLineRouting | OrthogonalRouting));
         for (int p = 0; p < (int) lastRoutingParameterMarker; ++p)
             router->setRoutingParameter((RoutingParameter) p, 0);
         router->setRoutingParameter(segmentPenalty, pen);
@@ -172,6 +179,8 @@ int main()
                 else if (tag == "E") { int id, which; double x, y; std::cin >> id >> which >> x >> y;
                     if (which == 0) cn.at(id)->setSourceEndpoint(ConnEnd(Point(x, y)));
                     else cn.at(id)->setDestEndpoint(ConnEnd(Point(x, y))); }
+                else if (tag == "Y") { int id, ty; std::cin >> id >> ty;
+                    cn.at(id)->setRoutingType(ty == 2 ? ConnType_Orthogonal : ConnType_PolyLine); }
                 else if (tag == "O") { std::string name; int v; std::cin >> name >> v;
                     RoutingOption o = name == "nudgeConnected" ? nudgeOrthogonalSegmentsConnectedToShapes :
                         name == "improveMoving" ? improveHyperedgeRoutesMovingJunctions :
